@@ -19,7 +19,7 @@ TECHNIQUE = 'Lean 4 theorems (wrap in range + congruent + unique, = Int.bmod, sh
 LEVEL_TEXT = ('Machine-checked for every word length n>=1 (no 64 in any statement): the model wrap (mask then sign-extend, as utils.wrap) is in range, congruent mod 2^n and the unique such integer, equals the balanced '
               'remainder when signed, is invariant under input shifts by multiples of 2^(n_word-n_frac) (floor/ceil/around; trunc/fix under the stated side condition, with a proved counter-example otherwise) and is a ring homomorphism image '
               '(register behaviour). Tied to /repo by exhaustive small formats, core-domain random cases, and Python-int inputs of arbitrary size into words up to 256 bits, judged by the verified relational checker.')
-LEVEL_NOTE = 'Trusted: Lean kernel + standard axioms; model-vs-code agreement only on generated inputs; Python's & and | on integers are Mathlib's Int.land / Int.lor (two's complement of unbounded width); that utils.wrap as written (mask, then or-ing -2^n) is the model's arithmetic wrap is the theorem wrapBits_eq_wrap, and the text of utils.wrap is re-translated on every run (source tie wrap_elem).'
+LEVEL_NOTE = 'Trusted: Lean kernel + standard axioms; model-vs-code agreement only on generated inputs; the & and | of Python integers are Int.land / Int.lor of Mathlib (twos complement of unbounded width); that utils.wrap as written (mask, then or-ing -2^n) equals the arithmetic wrap of the model is the theorem wrapBits_eq_wrap, and the text of utils.wrap is re-translated on every run (source tie wrap_elem).'
 
 
 def exec_W3(t):
